@@ -38,19 +38,27 @@ theorem trace_rank_independent_counterexample : ¬ trace_rank_independent_Statem
 
 /-- each repair is needed on its own -/
 theorem trace_needs_zeroPathNumrecs :
-    ¬ trace_rank_independent_Statement { zeroPathNumrecs := false, fillVarRecErr := true, metaErrJoins := true } := by
+    ¬ trace_rank_independent_Statement { Repairs.all with zeroPathNumrecs := false } := by
   intro h
   have := h (.getput .vard .put .record) {} witnessF2 { cls := .argErr .eedge } { cls := .valid, recEnd := 4 }
     (by decide) (by decide)
   revert this; decide
+/-- the repair proposed for F2 leaves the ranks whose variable ID is unusable (NC_ENOTVAR, NC_EGLOBAL) outside -/
+def witnessF2BadVarid : List RankInput := [{ cls := .argErr .enotvar }, { cls := .valid, recEnd := 4 }]
+theorem trace_needs_zeroPathBadVarid :
+    ¬ trace_rank_independent_Statement { Repairs.all with zeroPathBadVarid := false } := by
+  intro h
+  have := h (.getput .var .put .record) {} witnessF2BadVarid { cls := .argErr .enotvar } { cls := .valid, recEnd := 4 }
+    (by decide) (by decide)
+  revert this; decide
 theorem trace_needs_fillVarRecErr :
-    ¬ trace_rank_independent_Statement { zeroPathNumrecs := true, fillVarRecErr := false, metaErrJoins := true } := by
+    ¬ trace_rank_independent_Statement { Repairs.all with fillVarRecErr := false } := by
   intro h
   have := h .fillVarRec {} witnessFill { fillCls := .ok, recno := 3 } { fillCls := .notRec, varid := 2 }
     (by decide) (by decide)
   revert this; decide
 theorem trace_needs_metaErrJoins :
-    ¬ trace_rank_independent_Statement { zeroPathNumrecs := true, fillVarRecErr := true, metaErrJoins := false } := by
+    ¬ trace_rank_independent_Statement { Repairs.all with metaErrJoins := false } := by
   intro h
   have := h .renameVar { hcoll := true } witnessMeta {} { metaErr := 59 } (by decide) (by decide)
   revert this; decide
@@ -64,19 +72,22 @@ example : ¬ Trigger Repairs.none (.getput .var .put .record) { safe := true } {
 
 private theorem blocking_eq (rp : Repairs) (f : Form) (d : Dir) (vk : VarKind) (cfg : Cfg)
     (world : List RankInput) (a b : RankInput)
-    (ha : isArgErr a = true → (d = .put ∧ vk = .record) → rp.zeroPathNumrecs = true)
-    (hb : isArgErr b = true → (d = .put ∧ vk = .record) → rp.zeroPathNumrecs = true) :
+    (ha : (d = .put ∧ vk = .record) → skipsSync rp a = false)
+    (hb : (d = .put ∧ vk = .record) → skipsSync rp b = false) :
     blockingDriver rp f d vk cfg world a = blockingDriver rp f d vk cfg world b := by
-  have key : ∀ x : RankInput, (isArgErr x = true → (d = .put ∧ vk = .record) → rp.zeroPathNumrecs = true) →
+  have key : ∀ x : RankInput, ((d = .put ∧ vk = .record) → skipsSync rp x = false) →
       blockingDriver rp f d vk cfg world x =
-        [.setView, rwTok d] ++ (if d = .put ∧ vk = .record then numrecsSync f cfg world else []) := by
+        [.setView, rwTok d] ++ (if d = .put ∧ vk = .record then numrecsSync rp f cfg world else []) := by
     intro x hx
     unfold blockingDriver
     cases hc : x.cls with
     | argErr e =>
       simp only
       by_cases hpr : d = .put ∧ vk = .record
-      · have : rp.zeroPathNumrecs = true := hx (by simp [isArgErr, hc]) hpr
+      · have h1 := hx hpr
+        unfold skipsSync at h1
+        rw [hc] at h1
+        have : zeroJoins rp e = true := by simpa using h1
         simp [this]
       · simp [hpr]
     | valid => rfl
@@ -104,12 +115,18 @@ theorem trace_rank_independent_partial (rp : Repairs) (api : Api) (cfg : Cfg) (w
           have h1 := minOf_map_mem dispErr world x hx
           have h2 := dispErr_le_zero x
           exact (dispErr_eq_zero_iff x).mp (by omega)
+        have hskip : ∀ x ∈ world, skipsSync rp x = false := by
+          intro x hx
+          have h0 := hz x hx
+          unfold isArgErr at h0
+          unfold skipsSync
+          cases hcx : x.cls <;> rw [hcx] at h0 <;> simp at h0 ⊢
         congr 1
         unfold getputDriver
         cases f with
         | nb => rfl
-        | var => exact blocking_eq rp _ d vk cfg world a b (by simp [hz a ha]) (by simp [hz b hb])
-        | vard => exact blocking_eq rp _ d vk cfg world a b (by simp [hz a ha]) (by simp [hz b hb])
+        | var => exact blocking_eq rp _ d vk cfg world a b (fun _ => hskip a ha) (fun _ => hskip b hb)
+        | vard => exact blocking_eq rp _ d vk cfg world a b (fun _ => hskip a ha) (fun _ => hskip b hb)
     · have hs' : cfg.safe = false := by simpa using hs
       simp only [hs', Bool.false_eq_true, if_false]
       unfold getputDriver
@@ -117,24 +134,24 @@ theorem trace_rank_independent_partial (rp : Repairs) (api : Api) (cfg : Cfg) (w
       | nb => rfl
       | var =>
         apply blocking_eq
-        · intro he hpr; obtain ⟨hd, hv⟩ := hpr; subst hd; subst hv
-          cases hz : rp.zeroPathNumrecs with
-          | true => rfl
-          | false => exact absurd ⟨hz, hs', by decide, he⟩ hta
-        · intro he hpr; obtain ⟨hd, hv⟩ := hpr; subst hd; subst hv
-          cases hz : rp.zeroPathNumrecs with
-          | true => rfl
-          | false => exact absurd ⟨hz, hs', by decide, he⟩ htb
+        · intro hpr; obtain ⟨hd, hv⟩ := hpr; subst hd; subst hv
+          cases hq : skipsSync rp a with
+          | false => rfl
+          | true => exact absurd ⟨hs', by decide, hq⟩ hta
+        · intro hpr; obtain ⟨hd, hv⟩ := hpr; subst hd; subst hv
+          cases hq : skipsSync rp b with
+          | false => rfl
+          | true => exact absurd ⟨hs', by decide, hq⟩ htb
       | vard =>
         apply blocking_eq
-        · intro he hpr; obtain ⟨hd, hv⟩ := hpr; subst hd; subst hv
-          cases hz : rp.zeroPathNumrecs with
-          | true => rfl
-          | false => exact absurd ⟨hz, hs', by decide, he⟩ hta
-        · intro he hpr; obtain ⟨hd, hv⟩ := hpr; subst hd; subst hv
-          cases hz : rp.zeroPathNumrecs with
-          | true => rfl
-          | false => exact absurd ⟨hz, hs', by decide, he⟩ htb
+        · intro hpr; obtain ⟨hd, hv⟩ := hpr; subst hd; subst hv
+          cases hq : skipsSync rp a with
+          | false => rfl
+          | true => exact absurd ⟨hs', by decide, hq⟩ hta
+        · intro hpr; obtain ⟨hd, hv⟩ := hpr; subst hd; subst hv
+          cases hq : skipsSync rp b with
+          | false => rfl
+          | true => exact absurd ⟨hs', by decide, hq⟩ htb
   | waitAll => rfl
   | fillVarRec =>
     simp only [localTrace, fillTrace]
@@ -205,8 +222,13 @@ theorem trace_rank_independent_partial (rp : Repairs) (api : Api) (cfg : Cfg) (w
       rw [key a hta, key b htb]
 
 theorem no_trigger_when_repaired (api : Api) (cfg : Cfg) (x : RankInput) : ¬ Trigger Repairs.all api cfg x := by
-  unfold Trigger Repairs.all
-  split <;> simp
+  unfold Trigger
+  split
+  · rintro ⟨_, _, h⟩
+    unfold skipsSync zeroJoins Repairs.all at h
+    cases hc : x.cls <;> rw [hc] at h <;> simp at h
+    split at h <;> simp at h
+  all_goals simp [Repairs.all]
 
 /-- with the three repairs the property holds as written -/
 theorem trace_rank_independent_repaired : trace_rank_independent_Statement Repairs.all := by
@@ -352,7 +374,7 @@ example : localRet .fillVarRec { safe := true } [{ fillCls := .ok, recno := 3 },
     { fillCls := .ok, recno := 3 } = -269 := by decide
 
 def obligations : List String := [
-  "trace_rank_independent_counterexample", "trace_needs_zeroPathNumrecs", "trace_needs_fillVarRecErr",
+  "trace_rank_independent_counterexample", "trace_needs_zeroPathNumrecs", "trace_needs_zeroPathBadVarid", "trace_needs_fillVarRecErr",
   "trace_needs_metaErrJoins", "trace_rank_independent_partial", "trace_rank_independent_repaired",
   "matched_traces_no_deadlock", "completes_iff_all_equal", "mismatch_deadlocks", "no_deadlock_partial", "f2_deadlocks",
   "errors_local", "errors_local_data", "valid_rank_succeeds",
